@@ -113,6 +113,8 @@ pub struct Replica {
     pub fresh: bool,
     /// export kept aside by StageSave
     pub saved_stage: Option<Option<Value>>,
+    /// the export saved before `saved_stage`
+    pub older_stage: Option<Option<Value>>,
 }
 
 pub struct Msg {
@@ -210,6 +212,7 @@ impl World {
                 failed_commit_pending: false,
                 fresh: true,
                 saved_stage: None,
+                older_stage: None,
             });
         }
         Ok(w)
@@ -332,7 +335,7 @@ impl World {
             Op::StageRoundTrip { r } => self.op_stage_roundtrip(*r),
             Op::Snapshot { r } => self.op_snapshot(*r),
             Op::StageSave { r, keep } => self.op_stage_save(*r, *keep),
-            Op::StageRestore { r } => self.op_stage_restore(*r),
+            Op::StageRestore { r, older } => self.op_stage_restore(*r, *older),
             Op::ObjOp { r, kind, id_sel, fields } => self.op_objop(*r, *kind, *id_sel, fields),
             Op::Send { from, to, sel, delay, dup, drop } => self.op_send(*from, *to, *sel, *delay, *dup, *drop),
             Op::SendAll { from, to } => self.op_sendall(*from, *to),
@@ -542,8 +545,7 @@ impl World {
             Some(o) => o.clone(),
             None => return Ok(()),
         };
-        if self.replicas[r].time_travel {
-            // editing the past is outside every property; the generator never does it
+        if self.replicas[r].time_travel && !self.past_edits() {
             return Ok(());
         }
         let m = self.live(r);
@@ -803,6 +805,29 @@ impl World {
                 if self.is(&["C12"]) && before["doc"] != after["doc"] {
                     viol!(self, "commit-keeps-document", if arr_conf_before { "commit-changed-doc-arrayconflict" } else { "commit-changed-doc" },
                         "commit changed the visible document (array in conflict before: {}):\n before={}\n after={}", arr_conf_before, trunc(&before["doc"]), trunc(&after["doc"]));
+                }
+                if self.replicas[r].time_travel {
+                    // a commit made in the past: the state is the one determined by the new block and its
+                    // ancestors, and these heads can be travelled to later
+                    self.bump("probe.commit_in_the_past");
+                    if after["staging"] == json!(false) {
+                        self.replicas[r].clean_digest = Some(after.clone());
+                    }
+                    if self.is(&["C14", "C13", "C02", "C05", "C01"]) {
+                        let items: Items = {
+                            let seen = &self.replicas[r].seen;
+                            self.replicas[r].disk.items().into_iter().filter(|(k, _)| seen.contains(k)).collect()
+                        };
+                        let st = RefState::from_items_until(&items, Some(&ids));
+                        if st.heads == ids {
+                            self.compare_with_ref(r, &after, &st, "commit-in-the-past")?;
+                            if !self.replicas[r].checkpoints.iter().any(|c| c.heads == ids) {
+                                self.replicas[r].checkpoints.push(Checkpoint { heads: ids.clone(), digest: after.clone(), revs: BTreeMap::new() });
+                            }
+                        }
+                    }
+                    self.replicas[r].fresh = false;
+                    return Ok(());
                 }
                 // A held-back foreign block may become complete through this very commit (same
                 // objects, same pack): the committing replica learns that at its next refresh, a
@@ -1470,7 +1495,7 @@ impl World {
         let m = self.live(r);
         let rp = self.call("replay_stage", || m.replay_stage(&exp))?;
         self.bump("probe.stage_roundtrip");
-        if self.is(&["C15"]) {
+        if self.is(&["C15", "C19"]) {
             if let Some(s0) = &self.replicas[r].clean_digest {
                 if s0 != &mid {
                     viol!(self, "unstage-restores", "unstage-differs", "unstage (inside export/replay) did not restore the clean state: {}", diff_digest(s0, &mid));
@@ -1512,6 +1537,7 @@ impl World {
             Ok(e) => e,
             Err(_) => return Ok(()),
         };
+        self.replicas[r].older_stage = self.replicas[r].saved_stage.take();
         self.replicas[r].saved_stage = Some(exp);
         self.bump("probe.stage_saved");
         if keep {
@@ -1523,11 +1549,11 @@ impl World {
     /// Replay the export kept aside, possibly onto a state that has moved on since (refresh, other
     /// edits). No claim is made about the resulting state; what is staged can again be discarded
     /// (the next Unstage must restore the clean state) or committed.
-    fn op_stage_restore(&mut self, r: usize) -> Res {
-        if self.replicas[r].time_travel {
+    fn op_stage_restore(&mut self, r: usize, older: bool) -> Res {
+        if self.replicas[r].time_travel && !self.past_edits() {
             return Ok(());
         }
-        let exp = match self.replicas[r].saved_stage.clone() {
+        let exp = match if older { self.replicas[r].older_stage.clone() } else { self.replicas[r].saved_stage.clone() } {
             Some(e) => e,
             None => return Ok(()),
         };
@@ -1580,8 +1606,14 @@ impl World {
         Ok(())
     }
 
+    /// Editing and committing while time-travelled starts a new branch at the travelled heads (legal API
+    /// use: undo by branching); the properties about block graphs and time travel cover such histories.
+    fn past_edits(&self) -> bool {
+        self.is(&["C13", "C08", "C14", "C02", "C05", "C01"])
+    }
+
     fn op_objop(&mut self, r: usize, kind: u8, id_sel: u32, fields: &Value) -> Res {
-        if self.replicas[r].time_travel && !self.is(&["C13", "C08"]) {
+        if self.replicas[r].time_travel && !self.past_edits() {
             return Ok(());
         }
         let m = self.live(r);
